@@ -2144,6 +2144,9 @@ func unmarshalTuple(info TypeInfo, data []byte, value interface{}) error {
 	tuple := info.(TupleTypeInfo)
 	switch v := value.(type) {
 	case []interface{}:
+		if len(v) < len(tuple.Elems) {
+			return unmarshalErrorf("can not unmarshal tuple of %d elements into %d values", len(tuple.Elems), len(v))
+		}
 		for i, elem := range tuple.Elems {
 			// each element inside data is a [bytes]
 			var p []byte
